@@ -280,8 +280,8 @@ def check_c18(v, d):
     #     seeded 2% of length 3; thorough: all of length 3)
     pargs = ["parse", "-in", sp, "-trailing", "-mutations", "2" if quick else "8", "-enum", "3",
              "-enum-keep", "0.02" if quick else "1", "-subst-keep", "1"]
-    hargs = ["history", "-in", sp] + (["-bases", "40", "-probes", "12", "-random", "400"] if quick
-                                      else ["-bases", "160", "-probes", "30", "-random", "6000"])
+    hargs = ["history", "-in", sp] + (["-bases", "40", "-probes", "12", "-random", "400", "-long", "3", "-long-len", "40000", "-long-every", "1000"] if quick
+                                      else ["-bases", "160", "-probes", "30", "-random", "6000", "-long", "8", "-long-len", "150000", "-long-every", "2500"])
 
     def part(args, tag, per_chunk):
         trace, st = run_driver("parsedrv", args, d, tag)
@@ -342,7 +342,7 @@ def judge_c18(v, rejects):
 
 def brief_a(ev):
     diff = [[a, b] for a, b in zip(ev["reused"]["m"], ev["fresh"]["m"]) if a != b][:2]
-    return {"history": [[h["text"], "accepted" if h["acc"] else "rejected"] for h in ev["hist"]], "statement": ev["text"],
+    return {"history_length": ev.get("hlen", len(ev["hist"])), "history": [[h["text"], "accepted" if h["acc"] else "rejected"] for h in ev["hist"]], "statement": ev["text"],
             "after_history": "accepted" if ev["reused"]["acc"] else "rejected",
             "fresh_parser": "accepted" if ev["fresh"]["acc"] else "rejected", "meaning_differs_in": diff,
             "repaired_by_rebuilding_hooks": ev.get("attr", [])}
